@@ -2,7 +2,7 @@
   Model.PatMatch — hand-written mirror of /repo/lib/stringlib/pattern/matcher.go
   (`patternMatcher`: the iterative machine with a trackback stack) and of the
   entry points `Pattern.Match` / `Pattern.MatchFromStart` in pattern.go, including
-  their `recover()`.
+  their `recover()` (which re-raises every panic except the budget sentinel).
 
   * Go `int` positions are `Int` (the machine uses `si = -1` as "failed", and
     `end := m.si + c.end - c.start` can be negative).
@@ -11,7 +11,7 @@
   * The machine is a step function (`step`) iterated with fuel (`run`); the fuel is
     a parameter of the model, `.error .outOfFuel` is a model artefact the theorems exclude.
   * `m.ci` is written but never read in the Go code and is omitted.
-  * `consumed` and `backtracks` are ghost counters.
+  * `consumed`, `backtracks`, `steps`, `compared` are ghost counters.
 -/
 import GoluaVerif.Model.PatBuild
 namespace GoluaVerif.Model
@@ -49,6 +49,7 @@ structure M where
   consumed : Nat := 0           -- ghost: bytes consumed by matchNext/getNext
   backtracks : Nat := 0         -- ghost: trackback() calls that popped/resumed an alternative
   steps : Nat := 0              -- ghost: iterations of the match()/matchToEnd loops
+  compared : Nat := 0           -- ghost: bytes compared by back-references
   deriving DecidableEq, Repr, Inhabited
 
 abbrev R := Except Stop
@@ -80,6 +81,12 @@ def consumeBudget (m : M) : R M :=
   if m.budget = 0 then .ok m
   else if m.budget - 1 = 0 then .error .budgetConsumed
   else .ok { m with budget := m.budget - 1 }
+
+/-- `func (m *patternMatcher) consumeBudgetN(n int)`: `n` units at once (back-reference comparison) -/
+def consumeBudgetN (m : M) (n : Nat) : R M :=
+  if m.budget = 0 then .ok m
+  else if n ≥ m.budget then .error .budgetConsumed
+  else .ok { m with budget := m.budget - n }
 
 /-- `func (m *patternMatcher) matchNext(s byteSet) bool` -/
 def matchNext (s : Subject) (set : ByteSet) (m : M) : R (Bool × M) :=
@@ -168,10 +175,14 @@ def matchStep (nitems : Nat) (s : Subject) (item : PItem) (m : M) : R M :=
   | .capture => do
     let c ← capAt m.caps item.bytes.w0.toNat
     let stop := m.si + c.stop - c.start
-    if stop ≤ s.size then do
+    -- a position capture (`c.end == -1`) holds no string: it never matches
+    if c.stop ≥ 0 ∧ stop ≤ s.size then do
+      -- comparing costs one unit per byte of the capture
+      let m ← consumeBudgetN m (c.stop - c.start).toNat
       let a ← sliceChecked s c.start c.stop
       let b ← sliceChecked s m.si stop
-      if a == b then pure { m with si := stop, pi := m.pi + 1 } else pure (trackback nitems m)
+      if a == b then pure { m with si := stop, pi := m.pi + 1, compared := m.compared + (c.stop - c.start).toNat }
+      else pure (trackback nitems { m with compared := m.compared + (c.stop - c.start).toNat })
     else pure (trackback nitems m)
   | .balanced => do
     let op := lowByte item.bytes.w0
@@ -195,9 +206,11 @@ inductive Status where
   | running | matched | failed
   deriving DecidableEq, Repr, Inhabited
 
-/-- one step of `matchToEnd` (the loop of `match()` flattened into it) -/
-def step (P : Pattern) (s : Subject) (m : M) : R (Status × M) :=
-  let m := { m with steps := m.steps + 1 }
+/-- one step of `matchToEnd` (the loop of `match()` flattened into it; the unit charged at the top is the
+    `m.consumeBudget()` at the head of the `match()` loop, resp. the one after `m.match()` in `matchToEnd`) -/
+def step (P : Pattern) (s : Subject) (m : M) : R (Status × M) := do
+  -- every iteration of the `match()` loop, and every attempt of `matchToEnd`, costs one unit
+  let m ← consumeBudget { m with steps := m.steps + 1 }
   if h : m.pi < P.items.size then do
     let m ← matchStep P.items.size s P.items[m.pi] m
     pure (.running, m)
@@ -257,23 +270,24 @@ def initM (init : Int) (budget : Nat) : M :=
 structure GoResult where
   captures : Option (List Capture)
   used : Nat
-  /-- set when a panic other than `budgetConsumed` was swallowed by the `recover()` -/
-  swallowedPanic : Option PanicSite := none
+  /-- set when the machine raised a panic other than `budgetConsumed`: it is re-raised by the entry point -/
+  escapedPanic : Option PanicSite := none
   outOfFuel : Bool := false
   /-- ghost counters of the final machine (0 when a panic was recovered) -/
   consumed : Nat := 0
   backtracks : Nat := 0
   steps : Nat := 0
+  compared : Nat := 0
   deriving DecidableEq, Repr, Inhabited
 
-/-- the `defer func() { if r := recover(); r == budgetConsumed {…} }()` of both entry points:
-    ANY panic is recovered; for `budgetConsumed` the results are set to `(nil, budget+1)`, for any other
-    panic the named results keep their zero values `(nil, 0)`. -/
+/-- the `defer func() { if r := recover(); r == budgetConsumed {…} else if r != nil { panic(r) } }()` of both entry
+    points: the budget sentinel becomes `(nil, budget+1)`; any other panic is re-raised (`escapedPanic`). -/
 def recoverWrap (budget : Nat) (r : R (Option (List Capture) × M)) : GoResult :=
   match r with
-  | .ok (caps, m) => { captures := caps, used := budget - m.budget, consumed := m.consumed, backtracks := m.backtracks, steps := m.steps }
+  | .ok (caps, m) => { captures := caps, used := budget - m.budget, consumed := m.consumed, backtracks := m.backtracks,
+                       steps := m.steps, compared := m.compared }
   | .error .budgetConsumed => { captures := none, used := budget + 1 }
-  | .error (.goPanic w) => { captures := none, used := 0, swallowedPanic := some w }
+  | .error (.goPanic w) => { captures := none, used := 0, escapedPanic := some w }
   | .error .outOfFuel => { captures := none, used := 0, outOfFuel := true }
 
 /-- `func (p *Pattern) MatchFromStart(s string, init int, budget uint64)` -/
